@@ -188,6 +188,12 @@ _c10._mk_unit(2, 0, "memory", False, ("quick", "thorough"), prop="C07")
 # symmetrisation applies the declared transformations through Transform.__call__ (sign, conjugation, transposition together): C08's unit, here as well
 from contracts.C08 import _transform_unit as _c08_transform      # noqa: E402
 _c08_transform(prop="C07")
+# the result at g.K is obtained from the DECLARED parities: a wrong declaration (a formula class, a calculator) makes the symmetry-reduced run wrong
+# while every unreduced run stays right -- C08's declaration unit and its values-at-(-k) stand-in belong to this property as well
+from contracts import C08 as _c08      # noqa: E402
+unit("C07", "declared parities of the formula classes = parity of the base quantity x (-1)^(number of k-derivatives)", scope="shape:18 formula classes", expect_min=2)(_c08._declared)
+Unit("C07", "values at -k against the declared transformation of the values at k [real code, symmetric random models]", concrete=_c08._real_parities,
+     bounded_desc="as registered under C08: installed tabulators, dynamic and static calculators at a random k and -k of random time-reversal symmetric and inversion-symmetric models")
 
 
 # ------------------------------------------------------------------ bounded stand-in: installed run()
